@@ -241,7 +241,7 @@ def nativeWrite (env : NsEnv) (cfg : Cfg) (userMap : List (Pfx × Str)) (es : Li
     | none => .ok toks
 
 def xmlDecl : Str :=
-  "<?xml version=\"1.0\" encoding=\"UTF-8\"?>\n".toList
+  ['<', '?', 'x', 'm', 'l', ' ', 'v', 'e', 'r', 's', 'i', 'o', 'n', '=', '"', '1', '.', '0', '"', ' ', 'e', 'n', 'c', 'o', 'd', 'i', 'n', 'g', '=', '"', 'U', 'T', 'F', '-', '8', '"', '?', '>', '\n']
 
 /-- the text that ends up in the output stream -/
 def nativeText (env : NsEnv) (cfg : Cfg) (userMap : List (Pfx × Str)) (es : List Ev) :
